@@ -16,12 +16,12 @@ import (
 
 func init() {
 	simrt.Register(&simrt.Scenario{
-		Prop: "C20", Name: "model-sequential", Count: tiered(20000, 300000),
+		Prop: "C20", Name: "model-sequential", Count: tiered(20000, 2400000),
 		Run: c20Sequential, MaxOps: 1 << 20, Horizon: 500 * time.Hour,
 		Doc: "random histories of Sent/Resent/Received events (SYN, SYNACK, DATA and ACK of reused sequence numbers) with arbitrary virtual delays, checked event by event against a small executable reference model written from the statement",
 	})
 	simrt.Register(&simrt.Scenario{
-		Prop: "C20", Name: "invariants-concurrent", Count: tiered(6000, 100000),
+		Prop: "C20", Name: "invariants-concurrent", Count: tiered(6000, 800000),
 		Run: c20Concurrent, MaxOps: 1 << 20, Horizon: 500 * time.Hour,
 		Doc: "a send-loop task and a receive-loop task (plus a reader) drive one TimeoutManager concurrently with the call patterns of the connection; floor / static / monotonic-boost invariants after every call",
 	})
